@@ -109,6 +109,7 @@ type Result struct {
 	Signal   string
 	TimedOut bool
 	Wall     time.Duration
+	CPU      time.Duration // user + system time consumed by the process (independent of machine load)
 	Err      string
 }
 
@@ -219,6 +220,9 @@ func Run(c Cmd) *Result {
 		}
 	}
 	res.Wall = time.Since(t0)
+	if cmd.ProcessState != nil {
+		res.CPU = cmd.ProcessState.UserTime() + cmd.ProcessState.SystemTime()
+	}
 	res.Stdout, res.Stderr = so.Bytes(), se.Bytes()
 	if err != nil {
 		var ee *exec.ExitError
@@ -315,6 +319,9 @@ func Diff(a, b Snapshot) []string {
 // A path ending in "/" creates an empty directory.
 type Tree map[string]string
 
+// SymlinkPrefix marks a tree entry whose value is the target of a symbolic link.
+const SymlinkPrefix = "\x00symlink:"
+
 // Write materialises the tree under root.
 func (t Tree) Write(root string) error {
 	paths := make([]string, 0, len(t))
@@ -332,6 +339,13 @@ func (t Tree) Write(root string) error {
 		}
 		if err := os.MkdirAll(filepath.Dir(full), 0o755); err != nil {
 			return err
+		}
+		if link, ok := strings.CutPrefix(t[p], SymlinkPrefix); ok {
+			_ = os.Remove(full)
+			if err := os.Symlink(link, full); err != nil {
+				return err
+			}
+			continue
 		}
 		if err := os.WriteFile(full, []byte(t[p]), 0o644); err != nil {
 			return err
